@@ -33,8 +33,13 @@ def run_case(col, r, idx):
     storemodel.set_load_factor(lf)
     try:
         acl = idx % 4 != 3
-        text, f = gen.accepted_document(r, common.parser(), gen.LF_ONLY if idx % 3 else gen.DEFAULT, n=r.randint(1, 6),
-                                        auto_claim_comments=acl)
+        layout = idx % 5 == 0
+        if layout:
+            # comment-dense layouts, attribution by hand: claim calls are what moves placeholders around comments
+            text, f = gen.accepted_layout(r, common.parser(), auto_claim_comments=acl)
+        else:
+            text, f = gen.accepted_document(r, common.parser(), gen.LF_ONLY if idx % 3 else gen.DEFAULT, n=r.randint(1, 6),
+                                            auto_claim_comments=acl)
         if f is None:
             col.skip('document rejected by parse')
             return
@@ -48,8 +53,24 @@ def run_case(col, r, idx):
         nsteps = r.choice([2, 6, 12]) if col.tier == 'quick' else r.choice([4, 12, 30, 60])
         log = []
         inserted = set()
-        for s in range(nsteps):
-            op = mg.next_op(f) if r.random() < 0.3 else g.next_op(f)
+        pp = ops.pingpong_ops(f, r, 10) if layout and idx % 2 else []
+        pp.reverse()
+        for s in range(nsteps + len(pp)):
+            if pp:
+                op = pp.pop()
+                try:
+                    op.apply()
+                except ValueError:
+                    continue
+                log.append(op.desc)
+                col.count('claim_steps')
+                errs = walker.check_tree(f)
+                col.ev()
+                if errs:
+                    col.violation(f'{errs[0][0]}:{op.kind}', f'after {op.desc}: {errs[0][1]}', {'text': text, 'lf': lf, 'acl': acl, 'log': log})
+                    return
+                continue
+            op = (mg.claim_op(f) if layout and r.random() < 0.6 else mg.next_op(f)) if r.random() < (0.7 if layout else 0.3) else g.next_op(f)
             if op is None:
                 continue
             pre_ids = walker.ids_texts(f.token_store)
